@@ -84,6 +84,17 @@ CHECKS['C20'] = dict(
     text='CLAUSE decided: the operations of C01-C05, C08, C10, C14-C16 (arithmetic, comparison, rounding, integer conversion, unary, wide helpers). Every overflow assert, every call of an inherit-overflow-checks core function (<i128 as Add>::add, abs, pow, ...) and every debug_assert reached by the ~4 500 (quick) / ~24 000 (thorough) cells of those properties has an infeasible failure edge in every cell, hence the release build - which omits the check - computes the same result; a feasible edge would be reported as "panics in dev, wraps in release". Function bodies are identical MIR with and without feature packed; unsafe operations are confined to the audited parser helpers. NOT decided: the 141 sites in float conversion, parser, formatting, gcd and the unsigned 256-bit kernels (listed as assumptions in the evidence).',
     note='Trusted: rustc (absent UB the optimisation level does not change results); ' + TB + 'The 98 silent-wrap sites found by this check are repaired by a fix: commit.')
 
+CHECKS['C09'] = dict(
+    category='other', design_ref='DESIGN.md section 5 C09',
+    technique='forwarder-shape rule on MIR for Hash::hash; ' + ABSINT + ' with gcd_special as an uninterpreted function (shared atom table across the three ratio methods); who-may-call rule',
+    text='CLAUSE decided: Hash::hash is exactly as_integer_ratio().hash(state); for all 19 scales x sign classes as_integer_ratio() = (numerator(), denominator()) = (x/g, 10^p/g) as terms over g = gcd_special(x,p), (x,1) for integral representations and zero; the assertions inside gcd_special cannot fire at its three call sites; the denominator is positive. NOT decided: that gcd_special computes the gcd (contract G) - reducedness and "equal values hash equally" hold modulo that.',
+    note=TB + 'CONTRACT G for gcd_special (assumed, printed in the evidence); core\'s Hash for tuples.')
+CHECKS['C18'] = dict(
+    category='other', design_ref='DESIGN.md section 5 C18, Appendix A.10',
+    technique='who-may-call / argument-origin rule (shared parser) + ' + ABSINT + ' of both post-processing paths in one shared term universe (sibling equivalence) against oracle A.10',
+    text='CLAUSE decided (everything after the shared parser): Dec! and from_str call fpdec_core::str_to_dec exactly once on the literal text; with the parser replaced by "any Err kind or Ok((c,e))" the outcome sets of both post-processings - error kind with its overflow cause, or the pair (coefficient term, n_frac_digits), which the macro interpolates into Decimal::new_raw(#coeff, #n_frac_digits) - are equal for every exponent cell (-inf..-19, each of -18..38, 39..inf) and equal to oracle A.10. NOT decided: TokenStream::to_string / blank stripping, the parser itself.',
+    note=TB + 'quote! interpolation order; proc-macro run-time behaviour.')
+
 NOT_APPLICABLE = {
     'C07': 'Display/parse round trip is a value-level property of run-time digit strings across two algorithms (core::fmt and a byte parser); no structural clause that is both necessary and checkable without executing or symbolically solving; see DESIGN.md section 7.',
     'C12': 'Bit-exact float rounding of Decimal -> f64/f32 over 2^127 x 19 inputs: no sound static abstract domain in reach relates the produced bit pattern to the nearest float; see DESIGN.md section 7.',
